@@ -34,13 +34,28 @@ META = dict(
     property="C13",
     level="exploration",
     technique="(a) op-list histories on a ReactorBase with a counting waker (complete small scope + Hypothesis); (b) real select/poll/epoll/asyncio reactors with producer threads under OS scheduling, order-insensitive exactly-once / reactor-thread / per-issuer-order oracle and a logical idle wake-up probe",
-    level_text="Deterministic layer: all histories to depth 5 over a 7-letter alphabet plus random histories (<=40 ops, calls that raise and calls that issue calls) against an exactly-once/FIFO-per-issuer/wake-up model. Real layer: every available reactor (select, poll, epoll, asyncio) runs workloads of 1..16 producer threads (quick: ~10^3 calls per run; thorough: 10^4 calls x 5 repetitions) with sys.setswitchinterval(1e-5); the OS schedule is not controlled, so this is exploration under scheduling noise.",
+    level_text="Deterministic layer: all histories to depth 5 over an 8-letter alphabet (call shapes positional / keyword / mixed / zero-argument included) plus random histories (<=40 ops, calls that raise and calls that issue calls) against an exactly-once/FIFO-per-issuer/wake-up model. Real layer: every available reactor (select, poll, epoll, asyncio) runs workloads of 1..16 producer threads (quick: ~10^3 calls per run; thorough: 10^4 calls x 5 repetitions) with sys.setswitchinterval(1e-5); the OS schedule is not controlled, so this is exploration under scheduling noise.",
     level_note="The real layer cannot choose the interleaving; its oracles are invariants of any interleaving. Loss is declared only after >=4 further reactor iterations (heartbeat timer firings counted in the reactor thread) following two confirmed sentinel round trips. The idle wake-up probe compares, in the reactor's own clock, the moment the probed call runs with the due time of an unrelated 2 s timer and must fail three times in a row; a correct reactor could fail it only if its thread were not scheduled for 2 s three times in succession. The real workload is derived from VERIF_SEED with blake2b (no Hypothesis shrinking for thread runs).",
     design_ref="§5 C13",
-    rule="(a) case = op list; non-trivial = >=2 issuers interleaved in the executed order and >=1 call issued from inside a running call; (b) case = (reactor, per-thread lists of (pause, flags)); non-trivial = >=2 producer threads whose calls alternate in the executed order more often than there are threads. Distinct by canonical JSON of the case.",
+    rule="every issued call has a generated shape (positional, keyword, mixed, zero-argument callable) on every reactor and in the deterministic layer; (a) case = op list; non-trivial = >=2 issuers interleaved in the executed order and >=1 call issued from inside a running call; (b) case = (reactor, per-thread lists of (pause, flags, shape)); non-trivial = >=2 producer threads whose calls alternate in the executed order more often than there are threads. Distinct by canonical JSON of the case.",
 )
 
 NEST, RAISE = 1, 2
+# call shapes: how the arguments travel through callFromThread(f, *args, **kw)
+POS, KW, MIXED, NOARGS = 0, 1, 2, 3
+SHAPES = ["positional", "keyword", "mixed", "no-args"]
+
+
+def _issue_shaped(reactor, shape, fn, a, b, c):
+    """reactor.callFromThread(fn ...) delivering (a, b, c) in the given shape."""
+    if shape == KW:
+        reactor.callFromThread(fn, issuer=a, seq=b, extra=c)
+    elif shape == MIXED:
+        reactor.callFromThread(fn, a, b, extra=c)
+    elif shape == NOARGS:
+        reactor.callFromThread(lambda: fn(a, b, c))
+    else:
+        reactor.callFromThread(fn, a, b, c)
 
 
 class ScriptError(Exception):
@@ -83,6 +98,9 @@ def run_det(ctx, case):
     executed = []    # (issuer, id)
     runs = {}        # id -> count
     nextid = [0]
+    shapes = {}      # issuer -> set of call shapes used
+    sent = {}        # id -> (issuer, id(spec)) as handed to callFromThread
+    badargs = []
     state = dict(drain_mark=waker.n, in_drain=False, nested=0)
 
     def issue(issuer, spec):
@@ -90,9 +108,17 @@ def run_det(ctx, case):
         nextid[0] += 1
         issued.setdefault(issuer, []).append(i)
         runs[i] = 0
-        r.callFromThread(fn, issuer, i, spec)
+        sent[i] = (issuer, id(spec))
+        shape = spec[2] if len(spec) > 2 else POS
+        shapes.setdefault(issuer, set()).add(shape)
+        _issue_shaped(r, shape, fn, issuer, i, spec)
 
-    def fn(issuer, i, spec):
+    def fn(issuer, seq, extra):
+        i, spec = seq, extra
+        if not (i in runs and sent.get(i) == (issuer, id(spec))):
+            # (raising here would be swallowed by the reactor's failure handler)
+            badargs.append(f"got ({issuer!r}, {i!r}, {spec!r})")
+            return
         runs[i] += 1
         executed.append((issuer, i))
         for child in spec[1]:
@@ -105,6 +131,8 @@ def run_det(ctx, case):
         return [i for i, n in runs.items() if n == 0]
 
     def check(where):
+        if badargs:
+            ctx.violation("det-call-received-wrong-arguments", case, f"{badargs[0]} ({where})")
         for i, n in runs.items():
             if n > 1:
                 ctx.violation("det-call-ran-twice", case, f"call {i} ran {n} times ({where})")
@@ -156,6 +184,8 @@ def run_det(ctx, case):
         ctx.count("det: call issued from inside a running call")
     if any(op[0] == "call" and op[2][0] for op in case["ops"]):
         ctx.count("det: raising call")
+    if any(len(v) >= 2 for v in shapes.values()):
+        ctx.count("det: one issuer mixes call shapes (positional/keyword/mixed/no-args)")
     if len(issued) >= 2 and switches >= 2 and state["nested"]:
         ctx.nontrivial(dumps(case))
         ctx.count("det: nontrivial")
@@ -164,15 +194,16 @@ def run_det(ctx, case):
 
 
 def _spec_from_int(x):
-    """small int -> [raises, children]"""
+    """small int -> [raises, children, shape]"""
     raises = x & 1
     nchild = (x >> 1) % 3
+    shape = (x >> 7) & 3
     kids = []
     y = x >> 3
-    for _ in range(nchild):
-        kids.append([y & 1, [[0, []]] if (y >> 1) & 1 else []])
+    for j in range(nchild):
+        kids.append([y & 1, [[0, [], (shape + j) & 3]] if (y >> 1) & 1 else [], (shape + j + 1) & 3])
         y >>= 2
-    return [raises, kids]
+    return [raises, kids, shape]
 
 
 def _det_histories():
@@ -184,17 +215,18 @@ def _det_histories():
             else:
                 ops.append(["call", (x // 3) % 4, _spec_from_int(x // 12)])
         return dict(layer="det", ops=ops)
-    return st.lists(st.integers(0, 12 * 128 - 1), max_size=40).map(dec)
+    return st.lists(st.integers(0, 12 * 512 - 1), max_size=40).map(dec)
 
 
 _DET_ALPHABET = [
     ["iterate"],
-    ["call", 0, [0, []]],
-    ["call", 1, [0, []]],
-    ["call", 0, [0, [[0, []]]]],
-    ["call", 1, [1, []]],
-    ["call", 1, [1, [[0, [[0, []]]], [1, []]]]],
-    ["call", 2, [0, [[1, []]]]],
+    ["call", 0, [0, [], POS]],
+    ["call", 0, [0, [], KW]],
+    ["call", 1, [0, [], NOARGS]],
+    ["call", 0, [0, [[0, [], KW]], MIXED]],
+    ["call", 1, [1, [], KW]],
+    ["call", 1, [1, [[0, [[0, [], POS]], KW], [1, [], POS]], POS]],
+    ["call", 2, [0, [[1, [], NOARGS]], KW]],
 ]
 
 
@@ -226,7 +258,11 @@ def _make_reactor(kind):
     if kind == "asyncio":
         import asyncio
         from twisted.internet.asyncioreactor import AsyncioSelectorReactor
-        return AsyncioSelectorReactor(asyncio.new_event_loop())
+        loop = asyncio.new_event_loop()
+        # scripted calls raise on purpose; if a reactor hands them to the loop
+        # directly, keep asyncio's default handler from printing tracebacks
+        loop.set_exception_handler(lambda loop, context: None)
+        return AsyncioSelectorReactor(loop)
     raise HarnessError("unknown reactor " + kind)
 
 
@@ -261,12 +297,13 @@ def run_real(ctx, case):
              idle_results=[], problems=[], harness=[])
     ev = dict(started=threading.Event(), armed=threading.Event(), probed=threading.Event())
 
-    def fn(issuer, seq, flags):
+    def fn(issuer, seq, extra):
+        flags = extra
         executed.append((issuer, seq, threading.get_ident()))
         if flags & NEST:
             k = nested_issued[0]
             nested_issued[0] += 1
-            r.callFromThread(fn, "R", k, 0)
+            _issue_shaped(r, (k + seq) & 3, fn, "R", k, 0)
         if flags & RAISE:
             raise ScriptError(f"{issuer}:{seq}")
 
@@ -280,14 +317,16 @@ def run_real(ctx, case):
 
     def producer(i):
         try:
-            for seq, (pause, flags) in enumerate(plan[i]):
+            for seq, call in enumerate(plan[i]):
+                pause, flags = call[0], call[1]
+                shape = call[2] if len(call) > 2 else POS
                 if pause == 1:
                     time.sleep(0)
                 elif pause == 2:
                     time.sleep(0.0002)
                 elif pause == 3:
                     time.sleep(0.003)
-                r.callFromThread(fn, i, seq, flags)
+                _issue_shaped(r, shape, fn, i, seq, flags)
                 issued[i] = seq + 1
         except BaseException as e:          # twisted raised in a producer thread
             S["problems"].append(("producer-raised", f"thread {i}: {type(e).__name__}: {e}"))
@@ -456,6 +495,19 @@ def run_real(ctx, case):
     ctx.count(f"real[{kind}] calls", len(executed))
     ctx.count(f"real[{kind}] issuer switches in executed order", switches)
     ctx.count("real: calls issued from the reactor thread", nested_issued[0])
+    nshape = [0, 0, 0, 0]
+    changes = 0
+    for calls in plan:
+        prev = None
+        for call in calls:
+            sh = call[2] if len(call) > 2 else POS
+            nshape[sh] += 1
+            if prev is not None and sh != prev:
+                changes += 1
+            prev = sh
+    for k in range(4):
+        ctx.count(f"real: {SHAPES[k]} calls", nshape[k])
+    ctx.count(f"real[{kind}] same-thread consecutive calls of different shape", changes)
     if len(plan) >= 2 and switches > len(plan):
         ctx.nontrivial(dumps(case))
         ctx.count("real: nontrivial")
@@ -470,16 +522,18 @@ def _workload(seed, kind, idx, nthreads, ncalls):
     for t in range(nthreads):
         h = b""
         ctr = 0
-        while len(h) < ncalls:
+        while len(h) < 2 * ncalls:
             h += hashlib.blake2b(f"{seed}/{kind}/{idx}/{t}/{ctr}".encode(), digest_size=64).digest()
             ctr += 1
         calls = []
-        for b in h[:ncalls]:
+        for b, b2 in zip(h[:ncalls], h[ncalls:2 * ncalls]):
             p = b & 31
             pause = 1 if p in (1, 2, 3) else 2 if p in (4, 5) else 3 if p == 6 and (b >> 7) else 0
             f = (b >> 5) & 3
             flags = (NEST if f == 1 else 0) | (RAISE if f == 2 and (b & 1) else 0)
-            calls.append([pause, flags])
+            # call shape: half positional, the rest keyword / mixed / no-args
+            shape = POS if b2 & 1 else (KW, KW, MIXED, NOARGS)[(b2 >> 1) & 3]
+            calls.append([pause, flags, shape])
         out.append(calls)
     return dict(layer="real", reactor=kind, threads=out, idle=True)
 
